@@ -15,3 +15,14 @@ func verifTrafficInstalled(keys *TrafficKeyState, write, read *TrafficGeneration
 		hook(keys, write, read)
 	}
 }
+
+// VerifSecretHook, when set by a verification harness, observes named DTLS 1.3
+// key-schedule secrets (e.g. "exporter_master") when they are stored.
+var VerifSecretHook func(kind string, secret []byte) //nolint:gochecknoglobals
+
+// VerifSecretDerived reports a named key-schedule secret to the harness hook.
+func VerifSecretDerived(kind string, secret []byte) {
+	if hook := VerifSecretHook; hook != nil {
+		hook(kind, secret)
+	}
+}
